@@ -141,13 +141,16 @@ def _shape(case):
     return tuple(case.get('xshape') or (case['N'],))
 
 
-def _seed(case):
+def _seed(case, flat=False):
     """the point as the caller passes it: ndarray of the drawn dtype, shape (vector, or rank >= 2 with N entries) and memory
-    layout, or a nested list"""
-    x = case['x'].reshape(_shape(case))
+    layout, or a nested list; flat: as a vector (drivers that only take vectors)"""
+    x = case['x'] if flat else case['x'].reshape(_shape(case))
     if case.get('as_list'):
         return x.tolist()
-    return P.lay(x, case.get('xlayout'), case.get('xlayout_perm'))
+    lay = case.get('xlayout')
+    if x.ndim < 2 and lay in ('F', 'T', 'perm'):
+        lay = 'C'
+    return P.lay(x, lay, case.get('xlayout_perm'))
 
 
 def _vpass(case, v=None):
@@ -160,7 +163,10 @@ def _vpass(case, v=None):
 
 def _veff(case):
     """the direction the call means: v broadcast to the shape of x, flattened in C order like the seed"""
-    return np.broadcast_to(np.asarray(case['v']), _shape(case)).reshape(-1)
+    v = np.asarray(case['v'])
+    if v.shape == (case['N'],):
+        return v
+    return np.broadcast_to(v, _shape(case)).reshape(-1)
 
 
 def _kw(case):
@@ -291,7 +297,7 @@ def prop_poly_tensor(case, stats):
 # case strategies
 # ---------------------------------------------------------------------------
 
-_NS = st.sampled_from([1, 2, 2, 2, 3, 3, 3, 4, 4, 5, 5, 6])
+_NS = st.sampled_from([1, 2, 2, 2, 3, 3, 3, 4, 4, 4, 5, 6, 6])
 _INT_KINDS = ('int64', 'int32')
 
 
@@ -323,12 +329,13 @@ def _direction(draw, N, prefer_real=False):
 
 
 def _factorizations(N):
-    out = [(1, N), (N, 1)]
-    for a in range(2, N):
-        if N % a == 0:
-            out.append((a, N // a))
-    if N >= 4:
-        out += [(1,) + f for f in out if f[0] != 1 and f[1] != 1][:2] + [(a, 1, N // a) for a in range(2, N) if N % a == 0][:1]
+    """shapes of rank >= 2 with N entries; non-degenerate ones (no side 1: memory order matters) are listed three times"""
+    nd = [(a, N // a) for a in range(2, N) if N % a == 0]
+    out = [(1, N), (N, 1)] + nd * 3
+    if N == 8:
+        out += [(2, 2, 2)] * 2
+    if nd:
+        out += [(1,) + nd[0], (nd[0][0], 1, nd[0][1])]
     return out
 
 
@@ -346,7 +353,7 @@ def _seed_form(draw, case, driver, steered, smooth=False):
         x, kind = x.astype(np.int64), 'int64'
     case['x'], case['pkind'] = x, kind
     # shape of the seed: vector, or (where the driver takes it) an array of rank >= 2 with N entries
-    rank2 = {'jacobian': 3, 'jac_vec': 2, 'hessian': 3, 'smooth:jacobian': 3, 'hess_vec': 16, 'tensor': 16}.get(driver)
+    rank2 = {'jacobian': 3, 'jac_vec': 2, 'hessian': 2, 'smooth:jacobian': 3, 'smooth:hessian': 2, 'hess_vec': 16, 'tensor': 16}.get(driver)
     if rank2 and draw(st.sampled_from([False] * (rank2 - 1) + [True])):
         case['xshape'] = tuple(draw(st.sampled_from(_factorizations(N))))
     shp = _shape(case)
@@ -363,7 +370,7 @@ def _seed_form(draw, case, driver, steered, smooth=False):
         if driver in ('jac_vec', 'smooth:jacobian'):
             form = draw(st.sampled_from(['full'] * 5 + ['trail', 'col', 'scalar']))
         if form == 'full':
-            v = v.reshape(shp)
+            v = v.reshape(shp if driver != 'smooth:hessian' else (N,))      # init_hess_vec only takes vectors
         elif form == 'trail':
             v = v[:shp[-1]].copy()
         elif form == 'col':
@@ -571,14 +578,14 @@ def prop_smooth_hessian(case, stats):
     if not case.get('skip_init_hessian'):
         H = np.asarray(guard(UTPM.extract_hessian, N, _evaluate(case, guard(UTPM.init_hessian, _seed(case)), flat=True)))
         _compare(H, ref, scale, _tol(case, 'hessian', 1e-9), stats, 'extract_hessian(N, f(init_hessian(x))) vs mpmath')
-    T = guard(UTPM.extract_tensor, N, _evaluate(case, guard(UTPM.init_tensor, 2, _seed(case))))
+    T = guard(UTPM.extract_tensor, N, _evaluate(case, guard(UTPM.init_tensor, 2, _seed(case, flat=True)), flat=True))
     _compare(T, ref, scale, 1e-9, stats, 'extract_tensor(N, f(init_tensor(2,x))) vs mpmath Hessian')
     tol = _tol(case, 'hess_vec', 1e-9)
     for j in range(N):
-        col = guard(UTPM.extract_hess_vec, N, _evaluate(case, guard(UTPM.init_hess_vec, _seed(case), _unit(case, j))))
+        col = guard(UTPM.extract_hess_vec, N, _evaluate(case, guard(UTPM.init_hess_vec, _seed(case, flat=True), _unit(case, j).reshape(-1)), flat=True))
         _compare(col, ref[:, j], scale, tol, stats, 'extract_hess_vec with v = e_%d vs column %d of the Hessian (mpmath)' % (j, j))
     v = _veff(case).astype(float)
-    hv = guard(UTPM.extract_hess_vec, N, _evaluate(case, guard(UTPM.init_hess_vec, _seed(case), _vpass(case))))
+    hv = guard(UTPM.extract_hess_vec, N, _evaluate(case, guard(UTPM.init_hess_vec, _seed(case, flat=True), _vpass(case)), flat=True))
     vs = max(1.0, float(np.max(np.abs(v)))) ** 2
     _compare(hv, ref @ v, scale * vs, tol, stats, 'extract_hess_vec(N, f(init_hess_vec(x,v))) vs mpmath H v')
 
